@@ -501,7 +501,7 @@ Proof.
     rewrite compat1_frozen_ok by auto. rewrite Fc. cbn [andb orb].
     rewrite NO. cbn [andb]. apply andb_true_iff. split.
     + apply forallb_forall. intros w Iw. destruct (ACC _ Iw) as [r Hr].
-      simpl in ENb. eapply enum_accept_in; [exact Fb | exact ENb | exact Hr].
+      simpl in ENb. apply andb_true_iff in ENb as [ENb _]. eapply enum_accept_in; [exact Fb | exact ENb | exact Hr].
     + unfold enum_types_ok. rewrite Q4. cbn [orb enum_vals].
       destruct (enum_vtype vals) as [[|t [|t2 r2]]|] eqn:VT; auto.
       * destruct t; auto; (eapply enum_accept_typed; [exact Fb | exact VT | reflexivity | exact ACC]).
